@@ -34,7 +34,64 @@ type Framing struct {
 	FaultSide  string // read | write  (server only; client-read is read, client-write is write)
 	FaultAt    int
 	BufLen     int // client-read, API Read: length of the caller's buffer (0 = 65535); every buffer >= the message must get it
+	// APIs (client-read, round 9): the reading call per message, used cyclically (message i is taken
+	// with APIs[i mod len], the read after the last message with the next one); empty = API for all.
+	// One Conn, one stream, the calls mixed: ReadMsg / ReadMsgHeader take the first message and
+	// Conn.Read - the net.Conn-style read into the caller's buffer - a later one, and the reverse.
+	// Each call must begin where the previous one ended, whichever call that was.
+	APIs []string `json:",omitempty"`
 }
+
+var readAPIs = []string{"ReadMsg", "ReadMsgHeader", "ReadMsgHeaderHdr", "Read"}
+
+// apiOf is the reading call used for message i (i = len(Sizes): the read after the last message).
+func (c *Framing) apiOf(i int) string {
+	if len(c.APIs) > 0 {
+		return c.APIs[i%len(c.APIs)]
+	}
+	return c.API
+}
+
+// coalesced reports whether the segmentation lets one read of the transport deliver the end of one
+// frame together with the beginning of the next (two frames in one segment, or a reader that is
+// handed octets of several segments at once).
+func (c *Framing) coalesced() bool {
+	if len(c.Sizes) < 2 {
+		return false
+	}
+	if c.Coalesce {
+		return true
+	}
+	if !c.OneWrite {
+		return false // a segment never spans two Write calls
+	}
+	// one Write call: walk the chunk plan over the stream and see whether a segment spans a frame boundary
+	total := c.total()
+	bound := map[int]bool{}
+	pos := 0
+	for _, s := range c.Sizes[:len(c.Sizes)-1] {
+		pos += 2 + s
+		bound[pos] = true
+	}
+	if len(c.Chunks) == 0 {
+		return true
+	}
+	at := 0
+	for i := 0; at < total; i++ {
+		k := c.Chunks[i%len(c.Chunks)]
+		if k <= 0 || at+k > total {
+			k = total - at
+		}
+		for b := range bound {
+			if b > at && b < at+k {
+				return true
+			}
+		}
+		at += k
+	}
+	return false
+}
+
 
 var boundarySizes = []int{12, 13, 14, 18, 19, 31, 32, 33, 254, 255, 256, 257, 511, 512, 513, 4095, 4096, 4097, 16383, 16384, 16385, 32767, 32768, 65533, 65534, 65535}
 
@@ -99,10 +156,23 @@ func (c *Framing) total() int {
 	return n
 }
 
+func indexOf(l []string, v string) int {
+	for i, x := range l {
+		if x == v {
+			return i
+		}
+	}
+	return 0
+}
+
 func genFramingDir(dir string) func(t *rapid.T) Framing {
 	return func(t *rapid.T) Framing {
 		c := Framing{Dir: dir}
-		n := rapid.SampledFrom([]int{1, 1, 2, 3, 4}).Draw(t, "msgs")
+		counts := []int{1, 1, 2, 3, 4}
+		if dir == "client-read" {
+			counts = []int{1, 2, 2, 3, 4} // what a call leaves for the NEXT call needs a next message
+		}
+		n := rapid.SampledFrom(counts).Draw(t, "msgs")
 		big := 0
 		for i := 0; i < n; i++ {
 			s := genSize(t, "size")
@@ -122,7 +192,18 @@ func genFramingDir(dir string) func(t *rapid.T) Framing {
 		switch dir {
 		case "client-read":
 			c.API = rapid.SampledFrom([]string{"ReadMsg", "ReadMsg", "ReadMsgHeader", "ReadMsgHeaderHdr", "Read", "Read", "ReadShortBuf"}).Draw(t, "api")
-			if c.API == "Read" && rapid.IntRange(0, 2).Draw(t, "bufKind") > 0 {
+			if len(c.Sizes) >= 2 && rapid.IntRange(0, 9).Draw(t, "mixedAPIs") < 5 {
+				// the calls mixed on one Conn: every message with a call of its own
+				c.API = "mixed"
+				k := rapid.IntRange(2, len(c.Sizes)+1).Draw(t, "apiN")
+				for len(c.APIs) < k {
+					c.APIs = append(c.APIs, rapid.SampledFrom(readAPIs).Draw(t, "apiOfMsg"))
+				}
+				if c.APIs[0] == c.APIs[1] && rapid.Bool().Draw(t, "apiDiffer") {
+					c.APIs[1] = readAPIs[(indexOf(readAPIs, c.APIs[0])+1+rapid.IntRange(0, 2).Draw(t, "apiShift"))%len(readAPIs)]
+				}
+			}
+			if (c.API == "Read" && rapid.IntRange(0, 2).Draw(t, "bufKind") > 0) || (c.API == "mixed" && rapid.IntRange(0, 3).Draw(t, "bufKindMixed") == 0) {
 				// buffer lengths around the largest message and around / beyond the 16-bit range
 				big := 0
 				for _, s := range c.Sizes {
@@ -252,6 +333,23 @@ func (c *Framing) classes() (cl []string, nontrivial bool) {
 	if len(c.Sizes) > 1 {
 		cl = append(cl, "back-to-back")
 	}
+	if c.Dir == "client-read" && c.coalesced() {
+		cl = append(cl, "frames-coalesced-in-one-read")
+	}
+	if len(c.APIs) > 0 {
+		cl = append(cl, "mixed-calls-on-one-Conn")
+		for i := 1; i < len(c.Sizes); i++ {
+			a, b := c.apiOf(i-1), c.apiOf(i)
+			if a == b {
+				continue
+			}
+			nontrivial = true
+			cl = append(cl, b+"-after-"+a)
+			if c.coalesced() {
+				cl = append(cl, b+"-after-"+a+",coalesced")
+			}
+		}
+	}
 	if c.BufLen >= 65536 {
 		cl = append(cl, "read-buffer>=65536")
 	} else if c.BufLen > 0 {
@@ -308,7 +406,7 @@ func checkClientRead(c Framing) error {
 	co := &dns.Conn{Conn: b}
 	pos := 0
 	read := func(i int) (got []byte, m *dns.Msg, err error) {
-		switch c.API {
+		switch c.apiOf(i) {
 		case "ReadMsg":
 			m, err = co.ReadMsg()
 			return nil, m, err
@@ -331,7 +429,7 @@ func checkClientRead(c Framing) error {
 			fallthrough
 		default:
 			bl := c.BufLen
-			if bl <= 0 || c.API != "Read" {
+			if bl <= 0 || c.apiOf(i) != "Read" {
 				bl = 65535
 			}
 			buf := make([]byte, bl)
@@ -342,19 +440,24 @@ func checkClientRead(c Framing) error {
 			return buf[:n], nil, nil
 		}
 	}
-	var kept [][]byte
+	kept := make([][]byte, len(bodies))
 	for i, body := range bodies {
 		end := pos + 2 + len(body)
 		wantOK := c.Fault == "" || end <= c.FaultAt
+		api := c.apiOf(i)
+		how := api
+		if i > 0 && c.apiOf(i-1) != api {
+			how = fmt.Sprintf("%s (message %d was taken with %s on the same Conn)", api, i-1, c.apiOf(i-1))
+		}
 		got, m, err := read(i)
-		if c.API == "ReadShortBuf" {
+		if api == "ReadShortBuf" {
 			// the caller's buffer is one octet too small: an error, never a truncated message
 			if err == nil {
 				return fmt.Errorf("message %d (%d octets) read into a %d-octet buffer: no error, %d octets returned", i, len(body), len(body)-1, len(got))
 			}
 			return nil // the stream position is undefined after this error
 		}
-		if c.API == "Read" && c.BufLen > 0 && c.BufLen < len(body) && wantOK {
+		if api == "Read" && c.BufLen > 0 && c.BufLen < len(body) && wantOK {
 			if err == nil {
 				return fmt.Errorf("message %d (%d octets) read into a %d-octet buffer: no error, %d octets returned", i, len(body), c.BufLen, len(got))
 			}
@@ -362,34 +465,34 @@ func checkClientRead(c Framing) error {
 		}
 		if !wantOK {
 			if err == nil {
-				return fmt.Errorf("message %d (stream octets %d..%d) cut by %s at octet %d: %s returned no error (%s)", i, pos, end, c.Fault, c.FaultAt, c.API, describe(got, m))
+				return fmt.Errorf("message %d (stream octets %d..%d) cut by %s at octet %d: %s returned no error (%s)", i, pos, end, c.Fault, c.FaultAt, how, describe(got, m))
 			}
 			return nil
 		}
 		if err != nil {
-			return fmt.Errorf("message %d (%d octets, stream octets %d..%d, fault %q at %d, caller buffer %d octets): %s failed: %v", i, len(body), pos, end, c.Fault, c.FaultAt, c.BufLen, c.API, err)
+			return fmt.Errorf("message %d (%d octets, stream octets %d..%d, fault %q at %d, caller buffer %d octets; frames coalesced in one read: %v): %s failed: %v", i, len(body), pos, end, c.Fault, c.FaultAt, c.BufLen, c.coalesced(), how, err)
 		}
-		if c.API == "ReadMsg" {
+		if api == "ReadMsg" {
 			if e := sameAsBuilt(m, msgID(i), len(body), c.Seeds[i]); e != nil {
 				return fmt.Errorf("message %d (%d octets): ReadMsg returned a different message: %v", i, len(body), e)
 			}
 		} else if !bytes.Equal(got, body) {
-			return fmt.Errorf("message %d: %s returned %d octets %s, sent %d octets %s (first difference at %d)", i, c.API, len(got), hexHead(got), len(body), hexHead(body), firstDiff(got, body))
+			return fmt.Errorf("message %d: %s returned %d octets %s, sent %d octets %s (first difference at %d)", i, how, len(got), hexHead(got), len(body), hexHead(body), firstDiff(got, body))
 		}
-		if c.API != "ReadMsg" {
-			kept = append(kept, got) // "to be parsed with Msg.Unpack later on": a later read must not change it
+		if api != "ReadMsg" {
+			kept[i] = got // "to be parsed with Msg.Unpack later on": a later read must not change it
 		}
 		pos = end
 	}
 	for i, p := range kept {
-		if !bytes.Equal(p, bodies[i]) {
-			return fmt.Errorf("message %d: the slice %s returned changed while later messages were read (first difference at %d)", i, c.API, firstDiff(p, bodies[i]))
+		if p != nil && !bytes.Equal(p, bodies[i]) {
+			return fmt.Errorf("message %d: the slice %s returned changed while later messages were read (first difference at %d)", i, c.apiOf(i), firstDiff(p, bodies[i]))
 		}
 	}
 	// after the last message the stream is at EOF (or at the fault): an error, not a message
 	got, m, err := read(len(bodies))
 	if err == nil {
-		return fmt.Errorf("after the last of %d messages %s returned another message (%s)", len(bodies), c.API, describe(got, m))
+		return fmt.Errorf("after the last of %d messages %s returned another message (%s)", len(bodies), c.apiOf(len(bodies)), describe(got, m))
 	}
 	return nil
 }
